@@ -15,3 +15,15 @@ package cstate
 //@   modifies *
 //@   ensures [blockMetaFields] r != nil ==> r.LastBlockID == old(rawdb.metaAt(db, height).BlockID) && r.LastBlockTime == old(rawdb.metaAt(db, height).Header.Time) && r.LastBlockHeight == old(rawdb.metaAt(db, height).Header.Height) && r.LastBlockTotalTx == old(rawdb.metaAt(db, height).Header.NumTxs)
 //@   ensures [appHashOfThatHeight] r != nil ==> r.AppHash == rawdb.appHashAt(db, height)
+
+// ---------------------------------------------------------------- C03/C01: valid extensions of the node's own chain
+// The previous block's commit is verified against the PREVIOUS validator set, for the state's chain id,
+// the state's last block id and the height just below the block; the median time is taken over that
+// same set.
+//@ func validateBlock(evidencePool EvidencePool, store Store, state LatestBlockState, block *types.Block) (err error)
+//@   for C03 C01
+//@   requires block != nil
+//@   modifies *
+//@   opt assumecallreqs
+//@   atcall ValidatorSet.VerifyCommit requires [lastCommitAgainstPreviousSet] vs == state.LastValidators && chainID == state.ChainID && blockID == state.LastBlockID
+//@   atcall MedianTime requires [medianOverPreviousSet] validators == state.LastValidators
